@@ -791,6 +791,10 @@ def _check_time(c):
                     if same:
                         tot = np.sum([x.vals for x in parts], axis=0)
                         sc_ = np.sum([np.abs(x.vals) for x in parts], axis=0)
+                        # a bin is an integral of interpolated values: next to bins that are 70 orders of magnitude larger, a tiny bin is
+                        # exact only relative to the series' largest bin (1e-16 of it), not to itself
+                        with np.errstate(invalid="ignore"):
+                            sc_ = np.maximum(sc_, 1e-7 * np.nanmax(np.where(np.isfinite(sc_), sc_, 0.0)) if sc_.size else 0.0)
                         if H.mismatch(s1.vals, tot, sc_, 1e-9) is not None:
                             raise Violation(ID, "sum-of-parts/time-aggregated", "t_bins=%r method=%r item %r pops %r: aggregate %r, sum of separately aggregated parts %r" % (tb, method, o, p, s1.vals[:4].tolist(), tot[:4].tolist()))
                         c.labels.append("time:sum-of-parts")
